@@ -188,9 +188,13 @@ def programs(quick):
         for n, s in cgen.decl_units("CPP"):
             if n in dict(cgen.DECLS_CPP):
                 out.append(("declpp-" + n, "CPP", s))
-    funcs = progsets.stmt_funcs(1 if quick else 2)
+    funcs = progsets.stmt_funcs(1)
     for pid, src, meta in progsets.pack_funcs(funcs, 40):
         out.append((pid, "C", src))
+    if not quick:
+        # depth-2 statement packs: formatted under a 24-configuration sub-product only (see check())
+        for pid, src, meta in progsets.pack_funcs(progsets.stmt_funcs(2), 40):
+            out.append(("d2-" + pid, "C", src))
     return out
 
 
@@ -205,6 +209,13 @@ def check(ctx):
             lays = [l for l in lays if l[0] in ("orig", "trailing", "ws-blank-lines", "space-tab-indent", "tabs-between-tokens")]
             if not name.startswith(("c-", "cpp-", "pp-", "stmts")):
                 lays = lays[:2]
+        if name.startswith("d2-"):
+            sub = tab_product(True)[::9]
+            for ln, ls in lays[:1] + [l for l in lays if l[0] == "space-tab-indent"]:
+                jobs.append((name, lang, ln, ls, sub, "tabs"))
+            continue
+        if not quick:
+            lays = [l for l in lays if l[0] in ("orig", "trailing", "ws-blank-lines", "space-tab-indent", "tabs-between-tokens")]
         for ln, ls in lays:
             for i in range(0, len(tabs), 60):
                 jobs.append((name, lang, ln, ls, tabs[i:i + 60], "tabs"))
@@ -212,7 +223,7 @@ def check(ctx):
     eofc = [{"nl_end_of_file": a, "nl_end_of_file_min": str(m)} for a in ("ignore", "add", "remove", "force") for m in (0, 1, 2, 3)]
     eofc += [dict(c, nl_max="2") for c in eofc if int(c["nl_end_of_file_min"]) <= 2]
     for name, lang, src in progs:
-        if quick and not name.startswith(("c-", "cpp-", "pp-last", "pp-first", "pp-dir", "java", "oc-")):
+        if name.startswith("d2-") or (quick and not name.startswith(("c-", "cpp-", "pp-last", "pp-first", "pp-dir", "java", "oc-"))):
             continue
         body = src.rstrip(b"\n")
         for en, tail in (("none", b""), ("one", b"\n"), ("three", b"\n\n\n"), ("ws-after", b"\n  \t"), ("crlf", b"\r\n"), ("blank-ws-lines", b"\n \n\t\n")):
@@ -223,7 +234,7 @@ def check(ctx):
     groups = []
     dl = ctx.deadline - 20
     for name, lang, src in progs:
-        if quick and name not in ("c-basic", "cpp-class", "pp-define-multi", "decl-varblock", "stmts:0", "pp-if-inside"):
+        if name.startswith("d2-") or (quick and name not in ("c-basic", "cpp-class", "pp-define-multi", "decl-varblock", "stmts:0", "pp-if-inside")):
             continue
         for bn, base in (("tabs0", {"indent_with_tabs": "0"}), ("tabs1", {"indent_with_tabs": "1"}), ("tabs2", {"indent_with_tabs": "2"})):
             b = dict(ALIGN_ON); b.update(base)
